@@ -108,6 +108,61 @@ def state_hooks(seed):
     return None
 
 
+def clamping_bounds():
+    """Clamping with every one-/two-sided bound combination, including a bound that is exactly 0: after the hook ran,
+    every element is >= min (when given) and <= max (when given) and elements already inside are untouched"""
+    fails, n = [], 0
+    for mn, mx in ((None, 2.0), (-1.0, None), (-1.0, 2.0), (0.0, None), (None, 0.0), (0.0, 2.0), (-5.0, 0.0), (0.25, 0.5)):
+        n += 1
+        net = Net()
+        w0 = net.weight.clone()
+        cl = Clamping(net, "weight", min=mn, max=mx)
+        cl.register()
+        exp = w0.clamp(min=mn, max=mx)
+        try:
+            net(1)
+        except Exception as e:  # noqa: BLE001
+            fails.append({"what": "C16/clamping_bounds", "input": dict(min=mn, max=mx), "expected": exp.flatten().tolist(), "actual": f"{type(e).__name__}: {e}"})
+            break
+        if not torch.equal(net.weight, exp):
+            fails.append({"what": "C16/clamping_bounds", "input": dict(min=mn, max=mx), "expected": exp.flatten().tolist(), "actual": net.weight.flatten().tolist()})
+            break
+        cl.deregister()
+    return fails, n
+
+
+def manual_trigger_table():
+    """StateHook.forward(force, ignore_mode) for every combination of registered / force / ignore_mode / module mode /
+    train_update / eval_update: the hook body runs iff (registered or force) and (ignore_mode or the module's current
+    mode is enabled for the hook); a module call runs it iff registered and the mode is enabled"""
+    import itertools
+
+    fails, n = [], 0
+    for reg, force, ign, training, tu, eu in itertools.product((False, True), repeat=6):
+        n += 1
+        net = Net()
+        net.train(training)
+        cl = Clamping(net, "weight", min=-1.0, max=2.0, train_update=tu, eval_update=eu)
+        if reg:
+            cl.register()
+        w0 = net.weight.clone()
+        cl.forward(force=force, ignore_mode=ign)
+        ran = not torch.equal(net.weight, w0)
+        want = (reg or force) and (ign or (tu if training else eu))
+        inp = dict(registered=reg, force=force, ignore_mode=ign, training=training, train_update=tu, eval_update=eu)
+        if ran != want:
+            fails.append({"what": "C16/manual_trigger_truth_table", "input": inp, "expected": want, "actual": ran})
+            break
+        net.weight = w0.clone()
+        net(1)
+        ran2 = not torch.equal(net.weight, w0)
+        want2 = reg and (tu if training else eu)
+        if ran2 != want2:
+            fails.append({"what": "C16/module_call_runs_hook_iff_armed", "input": inp, "expected": want2, "actual": ran2})
+            break
+    return fails, n
+
+
 def sweep(tier="quick", seed=0, unsupported=()):
     failures, cases = [], 0
     for s in range(150 if tier == "quick" else 5000):
@@ -119,7 +174,11 @@ def sweep(tier="quick", seed=0, unsupported=()):
     f = state_hooks(seed)
     if f is not None:
         failures.append(f)
-    return {"standins": [{"function": "Hook register/deregister/mode switch/call/delete+gc.collect() sequences (fire counts, dangling handles); Clamping/Normalization numeric posts and manual forward rules", "domain": "random sequences of length 10 over 7 ops x placements x enable flags", "cases": cases, "proved": False, "label": "bounded"}], "failures": failures}
+    for fn in (clamping_bounds, manual_trigger_table):
+        fs, k = fn()
+        cases += k
+        failures.extend(fs)
+    return {"standins": [{"function": "Clamping one-/two-sided bounds incl. 0; StateHook manual-trigger truth table (64 combinations); Hook register/deregister/mode switch/call/delete+gc.collect() sequences (fire counts, dangling handles); Clamping/Normalization numeric posts and manual forward rules", "domain": "random sequences of length 10 over 7 ops x placements x enable flags", "cases": cases, "proved": False, "label": "bounded"}], "failures": failures}
 
 
 def replay(contract, label, model, note=""):
@@ -131,5 +190,12 @@ def replay(contract, label, model, note=""):
 
 def replay_native(rp):
     i = rp["input"]
+    what = rp.get("what", "")
+    if what == "C16/clamping_bounds":
+        fs, _ = clamping_bounds()
+        return {"reproduced": bool(fs), "failure": fs[0] if fs else None}
+    if what in ("C16/manual_trigger_truth_table", "C16/module_call_runs_hook_iff_armed"):
+        fs, _ = manual_trigger_table()
+        return {"reproduced": bool(fs), "failure": fs[0] if fs else None}
     f = run_seq(i["seed"], len(i["ops"])) if "ops" in i else state_hooks(0)
     return {"reproduced": f is not None, "failure": f}
